@@ -14,6 +14,7 @@
 -/
 import BlocV.Model.Ops
 import BlocV.Spec.Kleene
+import BlocV.Proofs.Lemmas.Interp
 
 namespace BlocV.C04
 open BlocV BlocV.Spec
@@ -117,5 +118,47 @@ example : evalBin .eq (.str [0x61]) (.null Ty.str) = .ok (.null Ty.bool) := rfl
 theorem cond_null_false (v : Val) (h : LogicOperand v) :
     condTaken v = .ok ((absK v).elim false K.cond) := by
   rcases logicOperand_cases v h with ⟨m, rfl⟩ | ⟨m, rfl⟩ | rfl | rfl <;> rfl
+
+
+/-! ### statement level (Model/Interp.lean: `execIf`, `whileLoop`, `eval` of a literal) -/
+
+/-- **A null condition takes the false branch of `if` / `elsif`** — for EVERY null value, whatever its type (untyped constant, `bool()`,
+`num()`, a null table, …) and wherever the condition expression got it from: the guarded statements do not run and the next rule is
+tried, from the state the evaluation of the condition left (IFStatement::doit). -/
+theorem if_null_condition_takes_false_branch (funcs : List Func) (depth fuel : Nat) (c : Expr) (body : List Stmt)
+    (rest : List (Option Expr × List Stmt)) (s s1 : St) (v : Val)
+    (hc : eval funcs depth fuel c s = (.ok v, s1)) (hn : v.isNull = true) :
+    execIf funcs depth (fuel + 1) ((some c, body) :: rest) s = execIf funcs depth fuel rest s1 := by
+  have ht : condTaken v = .ok false := by unfold condTaken; simp [hn]
+  simp only [execIf, Lemmas.bind_app, hc, Lemmas.liftM_app, ht, Bool.false_eq_true, if_false, Lemmas.evalM_ite_app]
+
+/-- A `false` condition likewise; a `true` one runs the guarded statements and no later rule. -/
+theorem if_bool_condition (funcs : List Func) (depth fuel : Nat) (c : Expr) (body : List Stmt)
+    (rest : List (Option Expr × List Stmt)) (s s1 : St) (b : Bool)
+    (hc : eval funcs depth fuel c s = (.ok (.bool b), s1)) :
+    execIf funcs depth (fuel + 1) ((some c, body) :: rest) s =
+      if b then execList funcs depth fuel body s1 else execIf funcs depth fuel rest s1 := by
+  have ht : condTaken (.bool b) = .ok b := by cases b <;> rfl
+  simp only [execIf, Lemmas.bind_app, hc, Lemmas.liftM_app, ht, Lemmas.evalM_ite_app]
+
+/-- **A null condition ends a `while` loop** (the body does not run), for every null value of any type (WHILEStatement::doit). -/
+theorem while_null_condition_ends (cond : EvalM Val) (body : EvalM Flow) (k : Nat) (s s1 : St) (v : Val)
+    (hc : cond s = (.ok v, s1)) (hn : v.isNull = true) :
+    whileLoop cond body (k + 1) s = (.ok .norm, s1) := by
+  unfold whileLoop
+  simp only [Lemmas.bind_app, hc, Lemmas.liftM_app, hn, if_true, Lemmas.pure_app, Bool.not_false, Lemmas.evalM_ite_app]
+
+/-- **Evaluating an expression never changes what the literal `null` means** (model level): a literal evaluates to its own value in
+every state — in particular `null` is the untyped null before and after any other evaluation `e` — and leaves the state alone. (That the
+C++ constant cell is not overwritten is the flag discipline of C05; the pinned build's witness `x = null or (i==1)` in a loop is recorded there.) -/
+theorem null_literal_stable (funcs : List Func) (depth fuel : Nat) (e : Expr) (s : St) :
+    eval funcs depth (fuel + 1) (.lit (.null Ty.none)) s = (.ok (.null Ty.none), s) ∧
+    eval funcs depth (fuel + 1) (.lit (.null Ty.none)) (eval funcs depth fuel e s).2 =
+      (.ok (.null Ty.none), (eval funcs depth fuel e s).2) :=
+  ⟨Lemmas.eval_lit .., Lemmas.eval_lit ..⟩
+
+/-- `if num() then print "T"; elsif null then print "N"; else print "E"; end if;` prints E; `while int() loop … end loop` runs zero times -/
+example : (execList [] 0 10 [.ifS [(some (.lit (.null Ty.num)), [.printS [.lit (.str [84])]]), (some (.lit (.null Ty.none)), [.printS [.lit (.str [78])]]),
+      (none, [.printS [.lit (.str [69])]])], .whileS (.lit (.null Ty.int)) [.printS [.lit (.str [87])]]] {}).2.out = [[10], [69]] := by decide +kernel
 
 end BlocV.C04
